@@ -345,7 +345,7 @@ def _py_list_from_vec(form: vec.PersistentVector) -> list:
 def _inst_from_str(inst_str: str) -> datetime:
     try:
         return langutil.inst_from_str(inst_str)
-    except (ValueError, OverflowError) as e:
+    except (ValueError, OverflowError, TypeError) as e:
         raise SyntaxError(f"Unrecognized date/time syntax: {inst_str}") from e
 
 
@@ -354,6 +354,15 @@ def _uuid_from_str(uuid_str: str) -> uuid.UUID:
         return langutil.uuid_from_str(uuid_str)
     except (ValueError, TypeError) as e:
         raise SyntaxError(f"Unrecognized UUID format: {uuid_str}") from e
+
+
+def _queue_from_coll(coll: Iterable) -> lqueue.PersistentQueue:
+    try:
+        return lqueue.queue(coll)
+    except TypeError as e:
+        raise SyntaxError(
+            f"Queue literal requires a collection, not {type(coll)}"
+        ) from e
 
 
 def _raise_unknown_tag(s: sym.Symbol, v: LispReaderForm) -> NoReturn:
@@ -365,7 +374,7 @@ class ReaderContext:
         {
             sym.symbol("inst"): _inst_from_str,
             sym.symbol("py"): _py_from_lisp,
-            sym.symbol("queue"): lqueue.queue,
+            sym.symbol("queue"): _queue_from_coll,
             sym.symbol("uuid"): _uuid_from_str,
         }
     )
@@ -718,7 +727,10 @@ def _read_set(ctx: ReaderContext) -> lset.PersistentSet:
     assert start == "{"
 
     def set_if_valid(s: Collection) -> lset.PersistentSet:
-        coll_set = set(s)
+        try:
+            coll_set = set(s)
+        except TypeError as e:
+            raise ctx.syntax_error("Set values must be hashable") from e
         if len(s) != len(coll_set):
             dupes = ", ".join(
                 lrepr(k) for k, v in collections.Counter(s).items() if v > 1
@@ -974,7 +986,12 @@ def _read_unicode_escape_seq(ctx: ReaderContext) -> str:
             f"Unicode escape sequence must be exactly 4 or 8 hex digits; got '{unicode_hex}'"
         )
 
-    return chr(int(unicode_hex, base=16))
+    try:
+        return chr(int(unicode_hex, base=16))
+    except (ValueError, OverflowError):
+        raise ctx.syntax_error(
+            f"Unsupported unicode escape sequence \\u{unicode_hex}"
+        ) from None
 
 
 def _read_str(ctx: ReaderContext, raw_string: bool = False) -> str:
@@ -1095,7 +1112,7 @@ def _read_byte_str(ctx: ReaderContext) -> bytes:
         if char == "":
             raise ctx.eof_error("Unexpected EOF in byte string")
         if ord(char) < 1 or ord(char) > 127:
-            raise ctx.eof_error("Byte strings must contain only ASCII characters")
+            raise ctx.syntax_error("Byte strings must contain only ASCII characters")
         if char == "\\":
             char = reader.next_char()
             escape_char = _BYTES_ESCAPE_CHARS.get(char, None)
@@ -1805,7 +1822,8 @@ def _read_reader_macro(ctx: ReaderContext) -> LispReaderForm:
         return read_macro(ctx)
     elif begin_ns_name_chars.match(char):
         s = _read_sym(ctx, is_reader_macro_sym=True)
-        assert isinstance(s, sym.Symbol)
+        if not isinstance(s, sym.Symbol):
+            raise ctx.syntax_error(f"Reader tag must be a symbol, not '{lrepr(s)}'")
         if s.ns is None:
             if s.name == "b":
                 return _read_byte_str(ctx)
@@ -1869,7 +1887,10 @@ def _read_next(ctx: ReaderContext) -> LispReaderForm:
     reader = ctx.reader
     char = reader.peek()
     if begin_num_chars.match(char):
-        return _read_num(ctx)
+        try:
+            return _read_num(ctx)
+        except (ArithmeticError, ValueError) as e:
+            raise ctx.syntax_error(f"Invalid number: {e}") from e
 
     if whitespace_chars.match(char):
         return _read_next_consuming_whitespace(ctx)
